@@ -289,5 +289,13 @@ def run(ctx):
     for r in (rule_shortcut, rule_window, rule_cover, rule_nearest, rule_single, rule_dispatch):
         ctx.attempt(r, ctx)
     # the window is computed from _sub_dir_time_resolution, which the path setter must keep current
-    from .C01 import rule_pathstate
-    ctx.attempt(rule_pathstate, ctx, "C01.pathstate")
+    from . import C01
+    ctx.attempt(C01.rule_pathstate, ctx, "C01.pathstate")
+    # the candidates are what find(start, end, filters=...) yields: "nearest among all files in the neighbourhood" holds only
+    # if find() yields all of them - the selection rules of C01 are reachable from find_closest
+    for r in (C01.rule_semiopen, C01.rule_prune, C01.rule_exclude, C01.rule_blacklist):
+        ctx.attempt(r, ctx)
+    from .C03 import tree_rules
+    from .C02 import rule_anchor
+    ctx.attempt(rule_anchor, ctx, "C01.anchor")
+    tree_rules(ctx, which=("pred", "partition", "descent_q", "scan_q", "early_q", "rows", "empty", "extent", "member"))
